@@ -58,6 +58,10 @@ var cfgDefs = map[string]cfgDef{
 	// SLOTS_PER_EPOCH = 4 < 8, MAX_COMMITTEES_PER_SLOT = 3 != SYNC_COMMITTEE_SUBNET_COUNT, sync period 3 epochs,
 	// SYNC_COMMITTEE_SIZE = 64 (subcommittees of 16 = TARGET_AGGREGATORS_PER_SYNC_SUBCOMMITTEE)
 	"t": {"t", 64, 4, 64, 4, nil, 3, 3},
+	// SYNC_COMMITTEE_SIZE not a multiple of SYNC_COMMITTEE_SUBNET_COUNT: subcommittees are the fixed slices of
+	// floor(size / 4) members; 30 -> 7 (positions 28, 29 belong to no subcommittee), 13 -> 3 (position 12 to none)
+	"o": {"o", 64, 4, 30, 0, nil, 0, 0},
+	"p": {"p", 64, 4, 13, 0, nil, 0, 0},
 }
 
 type netCtx struct {
